@@ -156,6 +156,9 @@ func (e *Engine) heapGet(st *State, key string) string {
 		// the current goroutine holds no lock on entry (unless declared `locks held`)
 		return "((as const (Array Int Int)) 0)"
 	}
+	if strings.HasPrefix(key, "X|condflag|") {
+		return "false"
+	}
 	if key == "X|mine" {
 		// no object has been allocated by this activation yet
 		return "((as const (Array Int Bool)) false)"
